@@ -17,6 +17,10 @@
 #[cfg(anytls_verif)]
 extern crate anytls_simnet as tokio;
 
+// H3: the padding size draw (`rand::random_range`) comes from the run's seeded generator.
+#[cfg(anytls_verif)]
+extern crate anytls_simrand as rand;
+
 /// Client implementation
 pub mod client;
 /// Padding module for traffic obfuscation
